@@ -15,19 +15,30 @@ C(m, s, x) == [mass |-> m, spec |-> s, ext |-> x]
 CompStates == {C(m, s, x) : m \in OptN(M124), s \in OptN(S), x \in {q(1,2), q(1,1), q(2,1), q(4,1), q(8,1)}}
 CompInitsAll == {<<"comp", c>> : c \in {c \in CompStates :
                     IF Known(c.mass) /\ Known(c.spec) THEN c.mass * c.spec = c.ext * K ELSE c.ext \in {q(1,1), q(4,1)}}}
+(* "big" components (derived mass 64 kg = 4096/64, specific 1/2, 1, 2): the grid resolves 64 kg * 2^-12 *)
+CompInitsNear == {<<"comp", C(m, sp, (q(64,1) * sp) \div K)>> : m \in {N, q(64,1)}, sp \in S}
+CompInitsQ == CompInitsAll \cup CompInitsNear
 CompOpsAll == {<<"SetMass", m, o>> : m \in OptN(M124), o \in {"None", "Extensive", "Intensive"}} \cup {<<"Expunge", 0, "">>}
 
 (* ---- locomotives *)
-NoComps(t) == IF t = "conv" THEN <<C(N, N, q(2,1)), C(N, N, q(2,1))>> ELSE <<C(N, N, q(2,1))>>
+NoComps(t) == CASE t = "conv" -> <<C(N, N, q(2,1)), C(N, N, q(2,1))>>
+                [] t = "hyb" -> <<C(N, N, q(2,1)), C(N, N, q(2,1)), C(N, N, q(2,1))>>
+                [] OTHER -> <<C(N, N, q(2,1))>>
 (* fc 1 kg @ 1 W/kg, gen 1 kg @ 1/2 W/kg (conv) / res 2 kg @ 2 J/kg (bel); baseline = ballast = 1 kg: derived 4 kg *)
-DerComps(t) == IF t = "conv" THEN <<C(q(1,1), q(1,1), q(1,1)), C(q(1,1), q(1,2), q(1,2))>> ELSE <<C(q(2,1), q(2,1), q(4,1))>>
+(* hybrid: fc 1 + gen 1 + res 2 kg, baseline = ballast = 2 kg: derived 8 kg *)
+DerComps(t) == CASE t = "conv" -> <<C(q(1,1), q(1,1), q(1,1)), C(q(1,1), q(1,2), q(1,2))>>
+                 [] t = "hyb" -> <<C(q(1,1), q(1,1), q(1,1)), C(q(1,1), q(1,2), q(1,2)), C(q(2,1), q(2,1), q(4,1))>>
+                 [] OTHER -> <<C(q(2,1), q(2,1), q(4,1))>>
+BaseOf(t) == IF t = "hyb" THEN q(2,1) ELSE q(1,1)
+DerOf(t) == IF t = "hyb" THEN q(8,1) ELSE q(4,1)
 U(t, m, mu, f, b, comps) == [t |-> t, mass |-> m, mu |-> mu, force |-> f, base |-> b, ball |-> b, comps |-> comps]
 Forces(m, mu) == IF Known(m) /\ Known(mu) THEN {(m * mu) \div K} ELSE {q(1,2), q(2,1)}
 Plain(T) == {U(t, m, mu, f, N, NoComps(t)) : t \in T, m \in OptN(M124), mu \in OptN(Mu), f \in {q(1,4), q(1,2), q(1,1), q(2,1)}}
-Derived(T) == {U(t, m, mu, f, q(1,1), DerComps(t)) : t \in T, m \in {N, q(4,1)}, mu \in OptN(Mu), f \in {q(1,2), q(1,1), q(2,1)}}
+DerivedOf(t) == {U(t, m, mu, f, BaseOf(t), DerComps(t)) : m \in {N, DerOf(t)}, mu \in OptN(Mu), f \in {q(1,2), q(1,1), q(2,1), q(4,1)}}
+Derived(T) == UNION {DerivedOf(t) : t \in T}
 Valid(Us) == {u \in Us : u.force \in Forces(u.mass, u.mu)}
-Units1 == Valid(Plain({"conv"})) \cup Valid(Derived({"conv", "bel"}))
-UnitsAll == Valid(Plain({"conv", "bel"})) \cup Valid(Derived({"conv", "bel"}))
+Units1 == Valid(Plain({"conv"})) \cup Valid(Derived({"conv", "bel", "hyb"}))
+UnitsAll == Valid(Plain({"conv", "bel", "hyb"})) \cup Valid(Derived({"conv", "bel", "hyb"}))
 Second == {U("bel", q(2,1), q(1,2), q(1,1), N, NoComps("bel")), U("conv", N, N, q(1,2), N, NoComps("conv"))}
 
 CarsA == [types |-> << <<q(8,1), 0, 2>> >>, override |-> N]
@@ -52,10 +63,13 @@ LocoOpsQ == {<<"SetMass", N, "None">>, <<"SetMass", q(2,1), "None">>, <<"SetMass
 
 (* ---- files with redundant data, consistent and not *)
 LoadComps == {<<"loadcomp", C(m, s, x)>> : m \in {N, q(1,1), q(2,1)}, s \in {N, q(1,2), q(1,1)}, x \in {q(1,1), q(2,1)}}
-BadComps(t) == IF t = "conv" THEN <<C(q(1,1), q(1,1), q(2,1)), C(q(1,1), q(1,2), q(1,2))>> ELSE <<C(q(2,1), q(2,1), q(2,1))>>
-FileUnits == {[t |-> t, mass |-> m, mu |-> mu, force |-> f, base |-> bb[1], ball |-> bb[2], comps |-> bb[3]] :
-                t \in {"conv", "bel"}, m \in {N, q(2,1), q(4,1)}, mu \in {N, q(1,2)}, f \in {q(1,1), q(2,1)},
-                bb \in {<<N, N, "no">>, <<q(1,1), q(1,1), "der">>, <<q(1,1), q(1,1), "bad">>, <<q(1,1), N, "der">>, <<N, N, "der">>}}
+BadComps(t) == CASE t = "conv" -> <<C(q(1,1), q(1,1), q(2,1)), C(q(1,1), q(1,2), q(1,2))>>
+                 [] t = "hyb" -> <<C(q(1,1), q(1,1), q(1,1)), C(q(1,1), q(1,2), q(1,2)), C(q(2,1), q(2,1), q(2,1))>>
+                 [] OTHER -> <<C(q(2,1), q(2,1), q(2,1))>>
+FileUnitsOf(t) == {[t |-> t, mass |-> m, mu |-> mu, force |-> f, base |-> bb[1], ball |-> bb[2], comps |-> bb[3]] :
+                     m \in {N, q(2,1), DerOf(t)}, mu \in {N, q(1,2)}, f \in {q(1,1), q(2,1), q(4,1)},
+                     bb \in {<<N, N, "no">>, <<BaseOf(t), BaseOf(t), "der">>, <<BaseOf(t), BaseOf(t), "bad">>, <<BaseOf(t), N, "der">>, <<N, N, "der">>}}
+FileUnits == UNION {FileUnitsOf(t) : t \in {"conv", "bel", "hyb"}}
 FileUnit(r) == [r EXCEPT !.comps = CASE r.comps = "no" -> NoComps(r.t) [] r.comps = "der" -> DerComps(r.t) [] OTHER -> BadComps(r.t)]
 LoadLocos == {<<"loadloco", [units |-> <<FileUnit(r)>>, cars |-> CarsA]>> : r \in FileUnits}
 AllLoads == LoadComps \cup LoadLocos
@@ -63,7 +77,7 @@ None == {}
 One == {1}
 Two == {1, 2}
 
-Done == Len(ops) = MaxOps \/ (Len(ops) = 1 /\ ops[1][1] = "Load")
+Done == Len(ops) = MaxOps \/ (Len(ops) = 1 /\ ops[1][1] = "Load") \/ (mode = "comp" /\ st.spec = Xq)
 Emit == Done => PrintT(<<"REPLAY", ToJson([mode |-> st0[1], st |-> st0[2], ops |-> ops])>>)
 (* quick tier: the driver replays a seeded sample of a few thousand sequences anyway, so only every   *)
 (* third maximal sequence (by a fixed arithmetic fingerprint of the calls) is printed                 *)
